@@ -531,8 +531,10 @@ type hostileResponse struct {
 	body   []byte
 }
 
-func (h *hostileResponse) Command() commands.Command                { return commands.Command{Code: h.letter} }
-func (h *hostileResponse) Encode(e enc.Encoder) ([]byte, error)     { return append([]byte{h.letter}, h.body...), nil }
+func (h *hostileResponse) Command() commands.Command { return commands.Command{Code: h.letter} }
+func (h *hostileResponse) Encode(e enc.Encoder) ([]byte, error) {
+	return append([]byte{h.letter}, h.body...), nil
+}
 func (h *hostileResponse) Decode(e enc.Encoder, resp []byte) error { return nil }
 
 func drawHostileResponse(rt *rapid.T, label string) (*hostileResponse, string) {
